@@ -54,6 +54,17 @@ deriving Repr
 end MpVerif.C10
 
 namespace MpVerif.C10
+/-- what `StdBackend::RoundSolution` sees: value of option `mip:round` (bit sum 1 assign rounded values, 2 "modify
+solve_result", 4 modify solve_message), number of integer variables with a fractional value (`rndres.first`),
+whether a status was set -/
+structure RoundCtx where
+  round : Nat
+  nRounded : Nat
+  retrieved : Bool := true
+deriving Repr
+end MpVerif.C10
+
+namespace MpVerif.C10
 /-! Boolean integer comparisons used by the generated predicates (so that unfolding an
 enumerator does not leave a stale `Decidable` instance behind). -/
 def leB (a b : Int) : Bool := decide (a ≤ b)
